@@ -214,9 +214,10 @@ func GetNode(children []*Node, path string) (*Node, bool) {
 			continue
 		}
 		if len(node.Children) == 0 {
-			// a file has nothing beneath it: 'a/b' is not found if 'a' is a file
+			// a file has nothing beneath it: 'a/b' is not found in the file 'a'
+			// (a directory of the same name may follow, so keep looking)
 			if len(pathSplit) > 1 {
-				return nil, false
+				continue
 			}
 			return node, true
 		}
